@@ -59,12 +59,26 @@ def explore(ctx, prop: str, with_liveness: bool):
         # start from non-initial states too: scripted prefixes that reach states beyond the depth bound (datasets that
         # went to disk and came back, were purged, leaving files behind), then the same exhaustive exploration from there
         for pname, prefix in (PREFIXES.items() if cap in (4, 13500) and not opt else ()):
+            # a scripted prefix is a history like any other: a monitor that fires on it is a violation; a prefix whose
+            # events are not enabled on this tree (eviction chose differently) is skipped and recorded as such
+            w0, upto = None, 0
             try:
-                w0 = shmworld.build(cfg, prefix)
+                w0 = shmworld.build(cfg, [])
+                for upto, ev in enumerate(prefix):
+                    if tuple(ev) not in w0.enabled():
+                        raise LookupError(f"{ev} not enabled")
+                    w0.apply(tuple(ev))
+                    if w0.viol:
+                        break
             except Exception as e:
-                raise common.HarnessError(f"prefix {pname} cannot be replayed: {e!r}")
+                depths.append({"capacity": cap, "prefix": pname, "skipped": f"not replayable on this tree at step {upto}: {e!r}"[:200]})
+                continue
             if w0.viol:
-                raise common.HarnessError(f"prefix {pname} itself violates: {w0.viol}")
+                for (mon, cause, msg) in w0.viol:
+                    if prop in shmworld.MON_PROP.get(mon, ()):
+                        h = [tuple(e) for e in prefix[: upto + 1]]
+                        ctx.add_violation(common.Violation({"monitor": mon, "cause": cause}, f"[capacity {cap}, scripted history {pname}] {msg[:300]}; history={h}", {"cfg": cfg, "history": h}))
+                continue
             r2 = bfs.bfs(expand, w0.canon(), ctx.pick(5, 7), deadline=time.time() + t_budget, init_hist=[tuple(e) for e in prefix])
             tot["states"] += r2["states"]
             tot["transitions"] += r2["transitions"]
